@@ -57,6 +57,11 @@ Inductive cev :=
 (* Instant range: i64 seconds since an unspecified epoch, in ns *)
 Definition IMAX : N := 9223372036854775807 * NANOS.
 Definition add_instant (site t d : N) : outcome N := if IMAX <? t + d then Panic site else Ok (t + d).
+(* add_duration_saturating (client/mod.rs, fix 8daf4ff): base.checked_add(d), else base + u32::MAX seconds
+   (that fallback addition is a plain `+`: it still panics if even it leaves the Instant range) *)
+Definition U32S : N := 4294967295 * NANOS.
+Definition add_saturating (site t d : N) : outcome N :=
+  if IMAX <? t + d then add_instant site t U32S else Ok (t + d).
 
 (* ---- compute_optional_state_transition (client/mod.rs:842-878) ---- *)
 Definition cost (cur des : cstate) (stop : stopshape) : option cstate :=
@@ -182,7 +187,11 @@ Section Client.
     | OpStart => set_des (set_stop s SNone) CConnected
     | OpStop d =>
         let s1 := match d with Some pkt => set_eng s (e_disc (c_eng s) now pkt) | None => s end in
-        let s2 := set_stop s1 (match d with Some _ => SDisc | None => SPlain end) in
+        (* fix d52fbbc: the DISCONNECT is only waited for when a connection is established AFTER it was submitted
+           (otherwise the engine has just failed it by the offline-queue policy) *)
+        let s2 := set_stop s1 (match d with
+                               | Some _ => if etag_eqb (e_tag (c_eng s1)) TConnected then SDisc else SPlain
+                               | None => SPlain end) in
         set_des (apply_error s2 EUserInitiatedDisconnect) CStopped
     | OpShutdown => set_des (set_eng s (e_reset (c_eng s) now)) CShutdown
     | OpListener => s
@@ -254,7 +263,7 @@ Section Client.
         match c_start s with
         | None => (s, Panic 981)                                   (* last_start_connect_time.unwrap() *)
         | Some t0 =>
-            match add_instant 981 t0 (c_timeout s) with
+            match add_saturating 981 t0 (c_timeout s) with
             | Ok deadline => let (e', r) := e_opened (c_eng s) now deadline in (set_eng s e', r)
             | Err k => (s, Err k)
             | Panic site => (s, Panic site)
